@@ -28,6 +28,13 @@ _r12 = 1 / 12
 
 
 def _randn(size, dtype, device, seed):
+    if torch.device(device).type == 'cpu':
+        # torch's CPU generator (a Mersenne twister) keeps only the low 32 bits of its seed, so among the ~1e5 seeds of a
+        # long solve two nodes would share their noise tensor (birthday bound). NumPy's PCG64 takes all 64 bits.
+        generator = np.random.Generator(np.random.PCG64(int(seed)))
+        np_dtype = np.float32 if dtype in (torch.float16, torch.bfloat16, torch.float32) else np.float64
+        noise = np.asarray(generator.standard_normal(tuple(size), dtype=np_dtype))
+        return torch.as_tensor(noise, dtype=dtype, device=device)
     generator = torch.Generator(device).manual_seed(int(seed))
     return torch.randn(size, dtype=dtype, device=device, generator=generator)
 
